@@ -55,7 +55,26 @@ fn main() {
     }
     zf::start_watchdog(20);
     run_cases(|input| {
-        let _ = input;
-        json!({"todo": true})
+        let text = bytes_of(&input["text"]);
+        zf::tick(&zf::show(&text));
+        // character-level cases and layout cases share one shape: a text, an
+        // optional origin (default "o."), an optional default class (default IN)
+        let origin: Option<Vec<u8>> = match input.get("origin") {
+            Some(Value::Array(a)) if a.is_empty() => None,
+            Some(v @ Value::Array(_)) => Some(bytes_of(v)),
+            _ => Some(ORIGIN.to_vec()),
+        };
+        let class = match input.get("class") {
+            Some(Value::Number(n)) => {
+                let c = n.as_i64().unwrap_or(1);
+                if c < 0 { None } else { Some(c as u16) }
+            }
+            _ => Some(1),
+        };
+        zf::read_all(&text, &zf::ReadOpts {
+            origin: origin.as_deref(),
+            default_class: class,
+            allow_invalid: false,
+        })
     });
 }
